@@ -75,7 +75,7 @@ class G:
         r = self.rng
         kinds = ["simple", "simple", "assign", "cmt_after", "if", "while", "for", "case", "brace", "subshell",
                  "andor", "pipe", "cont", "squote", "dquote", "heredoc", "heredoc_q", "heredoc_dash", "heredoc2",
-                 "heredoc_pipe", "cmdsub", "arith", "dbracket", "func", "eval", "eval2"]
+                 "heredoc_pipe", "cmdsub", "arith", "dbracket", "func", "eval", "eval2", "bsrun", "bsrun", "bsrun_dq", "bsrun_sq"]
         if depth >= 2:
             kinds = ["simple", "assign", "cont", "squote", "heredoc", "andor", "eval"]
         k = r.choice(kinds)
@@ -127,6 +127,14 @@ class G:
             return ["echo r%d:$((1 +" % i, "  2))"]
         if k == "dbracket":
             return ["if [[ a == a &&", "  b == b ]]; then " + self.probe("y") + "; fi"]
+        if k == "bsrun":
+            # a line ending in a run of 1..5 backslashes: an odd run ends in a line continuation
+            n = r.randrange(1, 6)
+            return ["echo C%d:dir" % i + "\\" * n, "file%d $LINENO" % i] if n % 2 else ["echo C%d:dir" % i + "\\" * n]
+        if k == "bsrun_dq":
+            return ['echo "D%d:' % i + "\\" * r.randrange(1, 6), 'x%d" $LINENO' % i]
+        if k == "bsrun_sq":
+            return ["echo 'S%d:" % i + "\\" * r.randrange(1, 6), "y%d' $LINENO" % i]
         if k == "eval":
             return ["eval 'echo e%d:$LINENO'" % i]
         if k == "eval2":
@@ -185,11 +193,42 @@ FIXED_PROGRAMS = [
     [["cat <<A; cat <<B", "1", "A", "2", "B"], ["echo after:$LINENO"]],
     [["echo 'multi", "line' $LINENO"], ["true &&", "  echo t:$LINENO"]],
     [["x=1 \\", "echo x:$LINENO"]],   # a continuation joins an assignment line with the next command line
+    # lines ending in runs of 1..5 backslashes: odd runs continue, even runs do not
+    [["echo C1:dir\\", "file1"], ["echo C2:dir\\\\"], ["echo C3:dir\\\\\\", "file3"], ["echo C4:dir\\\\\\\\"],
+     ["echo C5:dir\\\\\\\\\\", "file5"], ['echo "D3:\\\\\\', 'x"'], ["echo 'S3:\\\\\\", "y'"], ["echo end:$LINENO"]],
 ]
 
 
 # --------------------------------------------------------------------------------------------
 # process-level delivery
+
+def _run(argv, timeout=8, input=None, stdin=None, **kw):
+    """subprocess.run with the child in its own process group; on timeout the whole group is killed"""
+    import signal
+    p = subprocess.Popen(argv, stdin=(subprocess.PIPE if input is not None else (stdin or subprocess.DEVNULL)),
+                         stdout=subprocess.PIPE, stderr=subprocess.PIPE, start_new_session=True, **kw)
+    try:
+        out, err = p.communicate(input=input, timeout=timeout)
+    except subprocess.TimeoutExpired:
+        try:
+            os.killpg(p.pid, signal.SIGKILL)
+        except OSError:
+            pass
+        p.communicate()
+        raise
+    finally:
+        # nothing of the child's group may outlive the case (background jobs of a generated program)
+        try:
+            os.killpg(p.pid, signal.SIGKILL)
+        except OSError:
+            pass
+
+    class R:
+        pass
+    r = R()
+    r.returncode, r.stdout, r.stderr = p.returncode, out, err
+    return r
+
 
 def _env(home):
     return {"HOME": home, "PATH": "/usr/bin:/bin", "LC_ALL": "C", "TERM": "dumb"}
@@ -205,8 +244,7 @@ def run_modes(shell_argv, text, workdir, tag):
 
     def go(mode, args, stdin=None):
         try:
-            p = subprocess.run(shell_argv + args, cwd=workdir, env=env, stdin=stdin or subprocess.DEVNULL,
-                               stdout=subprocess.PIPE, stderr=subprocess.PIPE, timeout=8)
+            p = _run(shell_argv + args, cwd=workdir, env=env, stdin=stdin, timeout=8)
             res[mode] = (p.returncode, p.stdout.decode("utf-8", "replace"), p.stderr.decode("utf-8", "replace"))
         except subprocess.TimeoutExpired:
             res[mode] = ("timeout", "", "")
@@ -235,8 +273,7 @@ def eval_at_line(shell_argv, text, lead, workdir, tag):
     with open(path, "w") as f:
         f.write(":\n" * lead + 'eval "$1"\n')
     try:
-        p = subprocess.run(shell_argv + [path, text], cwd=workdir, env=_env(workdir), stdin=subprocess.DEVNULL,
-                           stdout=subprocess.PIPE, stderr=subprocess.PIPE, timeout=8)
+        p = _run(shell_argv + [path, text], cwd=workdir, env=_env(workdir), timeout=8)
         r = (p.returncode, p.stdout.decode("utf-8", "replace"))
     except subprocess.TimeoutExpired:
         r = ("timeout", "")
@@ -261,8 +298,7 @@ def truncation(t):
 
 
 def bash_n(text, workdir):
-    p = subprocess.run([BASH, "--norc", "--noprofile", "-n"], input=text.encode(), cwd=workdir, env=_env(workdir),
-                       stdout=subprocess.PIPE, stderr=subprocess.PIPE, timeout=8)
+    p = _run([BASH, "--norc", "--noprofile", "-n"], input=text.encode(), cwd=workdir, env=_env(workdir), timeout=8)
     err = p.stderr.decode("utf-8", "replace")
     if p.returncode == 0:
         return "complete"
@@ -719,6 +755,21 @@ def check_lex(ctx, workdir, res):
     # the real front-end on multi-line fragment texts vs the model's chunking with the fragment's decision
     multi = [t for t in texts if t.count("\n") >= 2 and len(t) >= 5]
     multi = rng.sample(multi, min(len(multi), 1500 if ctx.quick else 12000))
+    # lines ending in runs of 1..5 backslashes outside quotes, inside double and single quotes, in a comment,
+    # with the chunks they must be cut into (an odd run outside quotes / inside double quotes continues the
+    # line; quotes stay open over the newline; a comment ends at the newline whatever it ends in)
+    designed = {}
+    for k in range(1, 6):
+        bs = "\\" * k
+        for pre in ("a", "a b", "ab ", ""):
+            first, second = pre + "a" + bs + "\n", "b\n"
+            designed[first + second] = [first + second] if k % 2 else [first, second]
+        designed['"a' + bs + '\nb"\n'] = ['"a' + bs + '\nb"\n']
+        designed["'a" + bs + "\nb'\n"] = ["'a" + bs + "\nb'\n"]
+        designed["a # b" + bs + "\nb\n"] = ["a # b" + bs + "\n", "b\n"]
+        designed["a" + bs + "\n" + "b" + bs + "\n" + "a\n"] = (["a" + bs + "\n" + "b" + bs + "\n" + "a\n"] if k % 2
+                                                             else ["a" + bs + "\n", "b" + bs + "\n", "a\n"])
+    multi = sorted(designed) + [t for t in multi if t not in designed]
     impl_chunks = ctx.impl("c15chunks", [["e", t] for t in multi], timeout=IMPL_TIMEOUT)
     mcases = [[str(len(lines_of(t)))] + lines_of(t) for t in multi]
     mchunks = ctx.model("c15lexchunks", mcases)
@@ -730,6 +781,10 @@ def check_lex(ctx, workdir, res):
         if c != core.dec_line(ml):
             res["model_mismatches"].append({"what": "chunks of the real front-end differ from the fragment model",
                                             "text": t, "code": c, "model": core.dec_line(ml)})
+        if t in designed and c != designed[t]:
+            res["spec_violations"].append({"input": {"program": t, "mode": "stdin chunks"},
+                                           "why": "a line ending in a run of backslashes: standard input was cut into %r, "
+                                                  "the complete commands are %r" % (c, designed[t])})
         if len(c) > 1:
             res["nontrivial"].add("lex:" + t)
     res["dist_lex"]["chunked_texts"] = len(multi)
@@ -758,6 +813,74 @@ PROG_TEXTS = ["echo @(a|b)\n", "a <<< b\n", "[[ x == y ]]\n", "if true; then ech
               "echo a |& cat\n", "x=(1 2)\n", "echo ;;\n", "time -p ls\n"]
 
 
+
+# every field of the option struct of every memoised parse entry point is varied.  The fields come
+# from the Rust source (the translator's reading of the struct behind the function's parameter), the
+# letters are the harness's option letters, the texts are chosen so that the result depends on the field.
+FIELD_LETTER = {"enable_extended_globbing": "e", "posix_mode": "p", "sh_mode": "s",
+                "tilde_expansion_at_word_start": "t", "tilde_expansion_after_colon": "c"}
+API_OF_SITE = {("brush-parser/src/tokenizer.rs", "uncached_tokenize_string"): "tok",
+               ("brush-parser/src/word.rs", "cacheable_parse"): "word",
+               ("brush-core/src/shell/parsing.rs", "parse_string_impl"): "prog"}
+# prog goes through Shell::parser_options: only these fields vary there (the tilde flags are constants)
+SETTABLE = {"tok": "eps", "word": "epstc", "prog": "eps"}
+FIELD_TEXTS = {
+    # word.e: the word grammar's `extglob_enabled` rule is not consulted by `word::parse` today (extglob patterns
+    # are accepted as literal text either way), so no text can depend on it; the pairs below still run, as generic texts
+    ("word", "e"): [], ("word", "s"): ["${!x}", "${a[1]}"],
+    ("word", "t"): ["~0", "~/x", "~", "~/work", "~1"], ("word", "c"): ["a:~", "x=~", "a:~/x", "p=/b:~/c"],
+    ("word", "p"): [],
+    ("tok", "e"): ["a@(b|c)d", "x!(y)"], ("tok", "s"): ["x <<< y", "a |& b", "a &> f"], ("tok", "p"): [],
+    ("prog", "e"): ["echo @(a|b)\n", "echo !(x)\n"], ("prog", "s"): ["a <<< b\n", "[[ x == y ]]\n", "echo a |& cat\n"],
+    ("prog", "p"): [],
+}
+GENERIC_TEXTS = {"word": ["$x", "'q'", "@(a|b)", "~0"], "tok": ["echo a"], "prog": ["echo a\n"]}
+
+
+def option_fields():
+    """-> {api: [letters of the bool fields of the option struct of the memoised function]} from the sources"""
+    from translator import ex_c15
+    out = {}
+    for site in ex_c15.cached_sites():
+        api = API_OF_SITE.get((site["where"], site["fn"]))
+        if api is None:
+            continue
+        for pname, pty in zip(site["params"], site["ptypes"]):
+            ty = pty.lstrip("&").strip()
+            if ty in ex_c15.PRIMITIVE or ty == "str":
+                continue
+            rel, src, m = ex_c15._find_type(ty)
+            kt = [k for k in ex_c15.key_types([{"key_comps": [ty], "idents": [], "params": [], "ptypes": []}]) if k["name"] == ty.split("::")[-1]]
+            letters = []
+            for fname, fty in kt[0]["fields"]:
+                if fty == "bool":
+                    if fname not in FIELD_LETTER:
+                        raise core.CheckBroken("purity check cannot vary the new option field %s.%s: add it to the harness option letters" % (ty, fname))
+                    letters.append(FIELD_LETTER[fname])
+            out[api] = letters
+    for api in API_OF_SITE.values():
+        if api not in out:
+            raise core.CheckBroken("purity check: memoised entry point for %s not found in the sources" % api)
+    return out
+
+
+def field_sequences(ctx):
+    """for every field f: the same text with f off/on (other fields at several settings), both orders"""
+    seqs, pairs = [], []
+    fields = option_fields()
+    for api, letters in sorted(fields.items()):
+        settable = [l for l in letters if l in SETTABLE[api]]
+        for f in settable:
+            others = [l for l in settable if l != f]
+            bases = ["", "".join(others)] + others + ["".join(o for o in others if o in "et")]
+            for base in sorted(set(bases)):
+                off, on = base, "".join(sorted(base + f))
+                for t in FIELD_TEXTS.get((api, f), []) + GENERIC_TEXTS[api]:
+                    a, b = (api, off, t), (api, on, t)
+                    seqs += [[a, b], [b, a], [a, b, a, b]]
+                    pairs.append((api, f, t, a, b))
+    return seqs, pairs, fields
+
 def purity_cases(ctx):
     rng = ctx.rng
     seqs = []
@@ -785,11 +908,12 @@ def purity_cases(ctx):
         keep = [s for s in seqs[:n_designed] if len({x[2] for x in s}) == 1 or len(s) > 60]
         rest = [s for s in seqs[:n_designed] if not (len({x[2] for x in s}) == 1 or len(s) > 60)]
         seqs = keep + rng.sample(rest, min(len(rest), 2500)) + seqs[n_designed:]
-    return seqs
+    fseqs, pairs, fields = field_sequences(ctx)
+    return fseqs + seqs, pairs, fields
 
 
 def check_purity(ctx, res):
-    seqs = purity_cases(ctx)
+    seqs, field_pairs, fields = purity_cases(ctx)
     flat = [list(x) for s in seqs for x in s]
     uniq = sorted({tuple(x) for x in flat})
     fresh = ctx.impl("c15fresh", [list(u) for u in uniq], shards=16, timeout=IMPL_TIMEOUT)
@@ -814,7 +938,7 @@ def check_purity(ctx, res):
         for c, o in zip(cases, out):
             n += 1
             f = fresh_of[tuple(c)]
-            if o != f:
+            if o != f and sum(1 for v in res["spec_violations"] if "api" in v.get("input", {})) < 25:
                 res["spec_violations"].append({"input": {"api": c[0], "options": c[1], "text": c[2]},
                                                "why": "parse result in a long-lived process differs from a fresh process "
                                                       "(depends on what was parsed before): %r vs fresh %r" % (
@@ -822,11 +946,56 @@ def check_purity(ctx, res):
     res["evaluations"] += n + len(uniq)
     res["dist_purity"] = {"sequences": len(seqs), "parses_long_lived": n, "fresh_processes": len(uniq),
                           "option_sensitive_texts": len(sens), "texts": len(by_text)}
+    # every field that has texts chosen for it must really change the fresh result of one of them
+    field_sens = {}
+    for api, f, t, a, b in field_pairs:
+        if fresh_of[a] != fresh_of[b]:
+            field_sens.setdefault((api, f), set()).add(t)
+    blind = sorted("%s.%s" % k for k, v in FIELD_TEXTS.items() if v and k[1] in fields.get(k[0], []) and k[1] in SETTABLE[k[0]] and k not in field_sens)
+    if blind:
+        raise core.CheckBroken("purity check: no text whose parse depends on option field(s) %s: the check would be blind to a key that drops them" % blind)
+    res["dist_purity"]["fields_varied"] = {api: "".join(ls) for api, ls in fields.items()}
+    res["dist_purity"]["field_sensitive_texts"] = {"%s.%s" % k: len(v) for k, v in sorted(field_sens.items())}
     if len(sens) < 8:
         raise core.CheckBroken("purity check lost its option-sensitive texts (%d): the check would be blind to a key that drops options" % len(sens))
     for k in sens:
         res["nontrivial"].add("purity:%s:%s" % k)
 
+
+
+def check_tilde_purity(ctx, workdir, res):
+    """the word cache through the real binary: arithmetic evaluation and prompt expansion parse words
+    with tilde expansion at the word start OFF, ordinary command words with it ON; the same `~`-word used
+    both ways in one process, in both orders, must give what each use gives in a process of its own"""
+    pairs = [("n=$((~0)); echo \"<$n>\"", "echo ~0"),
+             ("echo \"<$((~1))>\"", "echo ~1"),
+             ("v='~'; echo \"${v@P}\"", "echo ~"),
+             ("v='~/work'; echo \"${v@P}\"", "echo ~/work"),
+             ("v='~/x:~/y'; echo \"${v@P}\"", "p=~/x:~/y; echo $p")]
+
+    def run1(text):
+        try:
+            p = _run(brush_argv(ctx) + ["-c", text], cwd=workdir, env=_env(workdir), timeout=8)
+            return p.stdout.decode("utf-8", "replace")
+        except subprocess.TimeoutExpired:
+            return "?timeout"
+    sens = 0
+    for a, b in pairs:
+        fa, fb = run1(a), run1(b)
+        if fa.strip("<>\n") != fb.strip("<>\n"):
+            sens += 1
+        for prog, exp in ((a + "\n" + b, fa + fb), (b + "\n" + a, fb + fa), (a + "\n" + b + "\n" + a, fa + fb + fa),
+                          ("f() { %s; }; f; %s; f" % (b, a), fb + fa + fb)):
+            res["evaluations"] += 1
+            got = run1(prog)
+            if got != exp:
+                res["spec_violations"].append({"input": {"program": prog, "mode": "-c"},
+                                               "why": "the same ~-word used in arithmetic/prompt expansion and as a command word in one "
+                                                      "process prints %r; each use in a process of its own prints %r" % (got, exp)})
+    res["dist_purity"]["tilde_pairs"] = len(pairs)
+    res["dist_purity"]["tilde_pairs_where_the_two_uses_differ"] = sens
+    if sens < 2:
+        raise core.CheckBroken("tilde purity scripts lost their sensitivity (%d pairs differ)" % sens)
 
 
 def check_regex_purity(ctx, workdir, res):
@@ -840,8 +1009,7 @@ def check_regex_purity(ctx, workdir, res):
         return "".join("shopt -%s nocasematch; %s; echo $?\n" % it for it in seq)
 
     def run1(text):
-        p = subprocess.run(brush_argv(ctx) + ["-c", text], cwd=workdir, env=_env(workdir), stdin=subprocess.DEVNULL,
-                           stdout=subprocess.PIPE, stderr=subprocess.PIPE, timeout=8)
+        p = _run(brush_argv(ctx) + ["-c", text], cwd=workdir, env=_env(workdir), timeout=8)
         return p.stdout.decode().split()
     fresh = {it: run1(prog([it])) for it in items}
     seqs = list(itertools.permutations(items, 3))
@@ -955,6 +1123,7 @@ def run(ctx):
         check_lru(ctx, res)
         check_purity(ctx, res)
         check_regex_purity(ctx, workdir, res)
+        check_tilde_purity(ctx, workdir, res)
         check_lex(ctx, workdir, res)
         texts, want = check_chunks_and_prefixes(ctx, progs, workdir, res)
         check_concat(ctx, progs, res)
@@ -979,6 +1148,11 @@ def search(ctx, res):
         progs = gen_programs(ctx, 600)
         try:
             check_purity(ctx, r2)
+        except core.CheckBroken as e:
+            r2["notes"].append(str(e))
+        r2.setdefault("dist_purity", {})
+        try:
+            check_tilde_purity(ctx, workdir, r2)
         except core.CheckBroken as e:
             r2["notes"].append(str(e))
         check_modes(ctx, progs, workdir, r2)
